@@ -44,15 +44,16 @@ def _flat(store, tid, include_trees=False):
     return {e.path: (e.mode, e.sha) for e in iter_tree_contents(store, tid, include_trees=include_trees)}
 
 
-def h_build_flatten(eng, first=0):
+def h_build_flatten(eng, first=0, paths=None, nstates=4):
     """iter_tree_contents(commit_tree(L)) == L for every listing; entries come out in git's order; a listing with a
     file/directory conflict does not silently produce a tree that loses an entry"""
     store = _store()
     L = {}
+    paths = paths or PATHS_A
     st0 = STATES[first]
     if st0 is not None:
-        L[PATHS_A[0]] = st0
-    L.update(_listing(eng, PATHS_A[1:], 4, "p"))
+        L[paths[0]] = st0
+    L.update(_listing(eng, paths[1:], nstates, "p"))
     L = {p: v for p, v in L.items()}
     try:
         tid = commit_tree(store, [(p, sha, mode) for p, (mode, sha) in L.items()])
@@ -236,4 +237,69 @@ def checks(tier):
                encoded=["dulwich.diff_tree._merge_entries", "dulwich.diff_tree._tree_entries"],
                bounds="two trees of 1-2 entries each with fully symbolic names of 1-2 bytes (no NUL, no '/')", outside="longer names",
                max_decisions=600, tiers=q),
+    ]
+
+
+# ---------------------------------------------------------------------------------------------
+# (e) twin directories (identical subtrees referenced twice) and type changes
+_b12e = checks
+TWIN = [b"d/x", b"e/x", b"d/y", b"e/y", b"f/g/x", b"f/x", b"z"]
+
+
+def h_type_change(eng, include_trees=False, change_type_same=False):
+    """one path whose kind changes between two trees (file, executable, symlink, gitlink, directory, absent): with
+    change_type_same=False a change of the object type bits is reported as a delete plus an add, otherwise as one
+    modify; equal type bits with different mode or id: one modify; identical: nothing"""
+    import stat as _st
+    store = _store()
+    kinds = STATES + ["dir"]
+
+    def side(tag):
+        k = kinds[eng.choice(tag, len(kinds))]
+        if k is None:
+            return {}, None
+        if k == "dir":
+            return {b"p/q": STATES[1]}, 0o040000
+        return {b"p": k}, k[0]
+    LA, ma = side("old_kind")
+    LB, mb = side("new_kind")
+    LA[b"zz"] = STATES[1]
+    LB[b"zz"] = STATES[1]
+    ta = commit_tree(store, [(p, sha, mode) for p, (mode, sha) in LA.items()])
+    tb = commit_tree(store, [(p, sha, mode) for p, (mode, sha) in LB.items()])
+    changes = [c for c in DT.tree_changes(store, ta, tb, include_trees=include_trees, change_type_same=change_type_same)]
+    on_p = [c for c in changes if b"p" in ((c.old.path if c.old else None), (c.new.path if c.new else None))]
+    types = sorted(c.type for c in on_p)
+    tag = f"[old mode {ma and oct(ma)} new mode {mb and oct(mb)} include_trees={include_trees} change_type_same={change_type_same}: {types}]"
+    vis_a = ma is not None and (ma != 0o040000 or include_trees)
+    vis_b = mb is not None and (mb != 0o040000 or include_trees)
+    if not vis_a and not vis_b:
+        eng.prove(types == [], f"{tag} nothing to report for the path itself")
+    elif vis_a and not vis_b:
+        eng.prove(types == [DT.CHANGE_DELETE], f"{tag} a delete")
+    elif vis_b and not vis_a:
+        eng.prove(types == [DT.CHANGE_ADD], f"{tag} an add")
+    elif LA.get(b"p") == LB.get(b"p") and ma != 0o040000 and mb != 0o040000:
+        eng.prove(types == [], f"{tag} identical entries are not reported")
+    elif _st.S_IFMT(ma) != _st.S_IFMT(mb) and not change_type_same:
+        eng.prove(types == sorted([DT.CHANGE_ADD, DT.CHANGE_DELETE]), f"{tag} a change of object type is a delete plus an add")
+    elif ma == 0o040000 and mb == 0o040000:
+        pass                                               # same subtree on both sides or not: covered by C12b
+    else:
+        eng.prove(types == [DT.CHANGE_MODIFY], f"{tag} one modify")
+
+
+def checks(tier):
+    q = ("quick", "thorough")
+    return _b12e(tier) + [
+        KCheck("C12a.twin_dirs", h_build_flatten, parts=[{"first": k, "paths": TWIN, "nstates": 3} for k in range(3)],
+               encoded=["dulwich.index.commit_tree", "dulwich.object_store.iter_tree_contents", "dulwich.object_store.tree_lookup_path"],
+               bounds="every listing over {d/x, e/x, d/y, e/y, f/g/x, f/x, z} with each path absent or one of two blobs: directories with "
+                      "byte-identical contents (the same tree object referenced twice, also at different depths) included",
+               outside="more than two identical directories", tiers=q),
+        KCheck("C12e.type_change", h_type_change, parts=[{"include_trees": it, "change_type_same": cs} for it in (False, True) for cs in (False, True)],
+               encoded=["dulwich.diff_tree.tree_changes", "dulwich.diff_tree._merge_entries"],
+               bounds="one path that is absent, a file, an executable, a gitlink, a symlink, another file or a directory on either "
+                      "side (all 49 pairs), all 4 combinations of include_trees / change_type_same",
+               outside="rename detection", tiers=q),
     ]
